@@ -14,6 +14,13 @@ def run_impl(case, cfg=None, cls=None):
     rec = talgen.Recorder()
     tab = case.get('objs', [])
     kw = {}
+    # other templates passed in as variables ({'template': k}): built with the default configuration
+    try:
+        talgen.CURRENT_LIBS[:] = [PageTemplate(src) for src in case.get('libs', [])]
+        for lt in talgen.CURRENT_LIBS:
+            lt.cook_check()
+    except Exception as e:
+        return {'exc': 'other', 'cls': 'library: ' + type(e).__name__}
     for k, v in case['vars']:
         kw[k] = talgen.pyval(v, tab, rec)
     handled = []
@@ -86,7 +93,7 @@ def model_req(case, cfg=None, quirks=None, rx=None):
     c = dict(cfg or {})
     c.update(case.get('cfg', {}))
     r = {'op': 'renderb' if case.get('bytes') else 'render', 'src': case['src'], 'vars': case['vars'], 'objs': case.get('objs', []), 'cfg': c,
-         'pyoracle': case.get('pyoracle', [])}
+         'pyoracle': case.get('pyoracle', []), 'libs': case.get('libs', [])}
     if quirks:
         r['q'] = quirks
     if rx:
@@ -206,7 +213,7 @@ def run_cases(ctx, cases, cfg=None, what='render', with_tlog=False):
         d = compare(o, impl, with_tlog=with_tlog)
         ctx.count('correspondence_cases')
         if d:
-            ctx.disagree('%s: %s' % (what, d), {'src': c['src'], 'vars': c['vars'], 'objs': c.get('objs'), 'cfg': c.get('cfg')},
+            ctx.disagree('%s: %s' % (what, d), {'src': c['src'], 'vars': c['vars'], 'objs': c.get('objs'), 'cfg': c.get('cfg'), 'libs': c.get('libs', [])},
                          model=o.get('ok', o), impl=impl)
         compared.append((c, m, impl))
     return compared
